@@ -513,7 +513,7 @@ func containsCallFalse(pa predPath, callee string, p *Program) bool {
 		_ = u
 	}
 	// the call's argument may be a loop variable without a symbol: look for the If on the path
-	for _, b := range pa.Blocks {
+	for bi, b := range pa.Blocks {
 		if len(b.Instrs) == 0 {
 			continue
 		}
@@ -523,10 +523,60 @@ func containsCallFalse(pa predPath, callee string, p *Program) bool {
 				if f := call.Call.StaticCallee(); f != nil && f.Name() == callee {
 					return true
 				}
+				// "some address fails the predicate" spelled slices.IndexFunc(ips, notAllowed) >= 0 /
+				// slices.ContainsFunc(ips, notAllowed), with notAllowed the negation of the predicate
+				if g := call.Call.StaticCallee(); g != nil && g.Origin() != nil && g.Origin().Pkg != nil && g.Origin().Pkg.Pkg.Path() == "slices" && len(call.Call.Args) == 2 && bi+1 < len(pa.Blocks) {
+					name := g.Origin().Name()
+					taken := pa.Blocks[bi+1] == b.Succs[0]
+					at := condAtom(ifi.Cond, taken)
+					found := false
+					switch name {
+					case "ContainsFunc":
+						found = isBoolTrue(at.Y) && at.Op == token.EQL
+					case "IndexFunc":
+						if n, ok := intConst(at.Y); ok {
+							found = (at.Op == token.GEQ && n == 0) || (at.Op == token.GTR && n == -1) || (at.Op == token.NEQ && n == -1)
+						}
+					}
+					if found {
+						for _, t := range funcValueTargets(call.Call.Args[1], 0) {
+							if negatesPredicate(p, t, callee) {
+								return true
+							}
+						}
+					}
+				}
 			}
 		}
 	}
 	return false
+}
+
+// negatesPredicate: f(x) returns !pred(x) on every path.
+func negatesPredicate(p *Program, f *ssa.Function, pred string) bool {
+	if f == nil || len(f.Blocks) == 0 || len(f.Params) != 1 {
+		return false
+	}
+	n := 0
+	for _, r := range returnsOf(f) {
+		if len(r.Results) != 1 {
+			return false
+		}
+		u, ok := r.Results[0].(*ssa.UnOp)
+		if !ok || u.Op != token.NOT {
+			return false
+		}
+		call, ok := u.X.(*ssa.Call)
+		if !ok || len(call.Call.Args) != 1 || call.Call.Args[0] != ssa.Value(f.Params[0]) {
+			return false
+		}
+		g := call.Call.StaticCallee()
+		if g == nil || g.Name() != pred {
+			return false
+		}
+		n++
+	}
+	return n > 0
 }
 
 // edgesLeadToDenial: the edge's target block returns an ErrPolicyDenied-wrapping error.
